@@ -85,6 +85,21 @@ def lin(*terms):
     return s
 
 
+def tolerance_findings(proj, op, limit=2):
+    """isclose-type tests that the folded run evaluated on symbolic quantities (see symeval._isclose): for a property that
+    quantifies over all inputs, a quantity entering the operator is compared within an absolute/relative tolerance instead of exactly."""
+    out, seen = [], set()
+    for node, a, b in getattr(op.ev, "tolerance_tests", []):
+        site, construct, stmt = sweep.locate(proj, node)
+        key = (site, stmt)
+        if key in seen:
+            continue
+        seen.add(key)
+        out.append(f"{site} `{stmt[:70]}` ({construct}) compares {A.canon(a)[:50]} with {A.canon(b)[:20]} within a tolerance: inputs for which the "
+                   "quantity is small but non-zero are treated as if it vanished")
+    return out[:limit]
+
+
 def same(a, b):
     return A.equal(A.to_rat(a), A.to_rat(b), tol=Fraction(1, 10**9))
 
